@@ -150,6 +150,13 @@ func corpus(e *ev.Env) {
 			rq("200").after(3000), rq("200").key(1), rq("200"), rq("200").key(2), rq("200")))
 	}
 
+	// ---- a handler that sets a status and THEN returns an error: the client receives what the
+	// error handler makes of the error, and that is the status the skip options go by
+	hist(e, "skip-failed-status-set-then-error", mem(fixedW(1, 3)).skipFailed(), steps(rq("201>err"), rq("204>err503"), rq("302>err"), rq("200"), rq("200")))
+	hist(e, "skip-failed-status-set-then-error-sliding", sto(slidingW(1, 3)).skipFailed(), steps(rq("201>err404"), rq("304>err"), rq("200"), rq("200")))
+	hist(e, "skip-successful-status-set-then-error", sto(fixedW(1, 3)).skipSuccessful(), steps(rq("201>err"), rq("201>err")))
+	hist(e, "skip-successful-status-set-then-error-sliding", mem(slidingW(2, 3)).skipSuccessful(), steps(rq("404>err302"), rq("204>err"), rq("302>err503"), rq("500")))
+
 	// ---- probe, not a verdict: fiber.Storage documents "Empty key or value will be ignored"
 	// for Set. A KeyGenerator that returns "" (the documentation's own example reads a header
 	// that may be absent) therefore is never limited on an external storage.
